@@ -1,5 +1,376 @@
 package main
 
+import (
+	"bytes"
+	"fmt"
+	"go/ast"
+	"go/printer"
+	"go/token"
+	"regexp"
+	"sort"
+	"strings"
+)
+
+var reNum = regexp.MustCompile(`-?\b[0-9]+(\.[0-9]+)?\b`)
+var reStr = regexp.MustCompile(`"[^"]*"`)
+
+func (p *pkg) bodyText(fd *ast.FuncDecl) string {
+	var buf bytes.Buffer
+	printer.Fprint(&buf, p.fset, fd.Body)
+	return buf.String()
+}
+
+// normalize replaces the receiver's type name by T, string literals by "S" and numeric literals by
+// #, returning the literals in order.
+func normalize(body, typeName string) (string, []string) {
+	body = strings.ReplaceAll(body, typeName, "T")
+	body = reStr.ReplaceAllString(body, `"S"`)
+	var nums []string
+	body = reNum.ReplaceAllStringFunc(body, func(s string) string {
+		nums = append(nums, s)
+		return "#"
+	})
+	body = strings.Join(strings.Fields(body), " ")
+	return body, nums
+}
+
+func genDptDebug(dpt *pkg) {
+	type ent struct {
+		name string
+		nums []string
+	}
+	groups := map[string][]ent{}
+	for _, f := range dpt.files {
+		for _, d := range f.Decls {
+			fd, ok := d.(*ast.FuncDecl)
+			if !ok || fd.Recv == nil || (fd.Name.Name != "Pack" && fd.Name.Name != "Unpack") {
+				continue
+			}
+			recv := strings.TrimPrefix(typeString(fd.Recv.List[0].Type), "*")
+			n, nums := normalize(dpt.bodyText(fd), recv)
+			key := fd.Name.Name + " :: " + n
+			groups[key] = append(groups[key], ent{recv, nums})
+		}
+	}
+	var keys []string
+	for k := range groups {
+		keys = append(keys, k)
+	}
+	sort.Strings(keys)
+	for _, k := range keys {
+		es := groups[k]
+		fmt.Printf("%d %s\n    e.g. %s %v\n", len(es), k, es[0].name, es[0].nums)
+	}
+	_ = token.ADD
+}
+
+
+type tmpl struct {
+	text  string
+	kind  string
+	nnums int // -1: any
+}
+
+var packTemplates = []tmpl{
+	{`{ return []byte{packB1(bool(d))} }`, "b1", 0},
+	{`{ return packU8(uint8(d)) }`, "u8", 0},
+	{`{ return packV8(int8(d)) }`, "v8", 0},
+	{`{ return packU16(uint16(d)) }`, "u16", 0},
+	{`{ return packV16(int16(d)) }`, "v16", 0},
+	{`{ return packU32(uint32(d)) }`, "u32", 0},
+	{`{ return packV32(int32(d)) }`, "v32", 0},
+	{`{ return packF32(float32(d)) }`, "f32", 0},
+	{`{ if d <= # { return packF16(#) } else if d >= # { return packF16(#) } else { return packF16(float32(d)) } }`, "f16", 4},
+	{`{ if d <= # { return packU8(#) } else if d >= # { return packU8(#) } else { return packU8(uint8(d*# + #)) } }`, "scaled", 6},
+	{`{ if d <= # { return packU8(#) } else if d >= # { return packU8(#) } else { return packU8(uint8(d*#/# + #)) } }`, "angle", 7},
+	{`{ if d > # { return packU8(#) } else { return packU8(uint8(d)) } }`, "scene17", 2},
+	{`{ if d <= # || (d >= # && d <= #) { return packU8(uint8(d)) } else { return packU8(#) } }`, "scene18", 4},
+	{`{ return packV16(roundV16(float32(d), #)) }`, "v16scaled", 1},
+	{`{ var buf = []byte{#, #, #, #} if d.IsValid() { buf[#] = d.Weekday<<# | d.Hour&0x1F buf[#] = d.Minutes buf[#] = d.Seconds } return []byte(buf) }`, "time", 8},
+	{`{ var buf = []byte{#, #, #, #} if d.Year >= # && d.Year <= # && d.IsValid() { buf[#] = d.Day & 0x1F buf[#] = d.Month & 0xF if d.Year < # { buf[#] = uint8(d.Year - #) } else { buf[#] = uint8(d.Year - #) } } buf[#] &= 0x7F return buf }`, "date", 14},
+	{`{ var buf = make([]byte, #) r := []rune(d) for i := #; i < len(r) && i < #; i++ { if r[i] > unicode.MaxASCII { buf[i+#] = 0x20 } else { buf[i+#] = byte(r[i]) } } return buf }`, "strAscii", 5},
+	{`{ buf := make([]byte, #) r := []rune(d) for i := #; i < len(r) && i < #; i++ { if r[i] > unicode.MaxLatin1 { buf[i+#] = 0x20 } else { buf[i+#] = byte(r[i]) } } return buf }`, "strLatin1", 5},
+	{`{ // len(d) is gives us the number of bytes in d var buf = make([]byte, #, len(d)+#) buf = append(buf, d...) buf = append(buf, 0x00) return buf }`, "varstr", 2},
+	{`{ return []byte{#, d.Red, d.Green, d.Blue} }`, "rgb", 1},
+	{`{ validBits := packB2([#]bool{d.ColorValid, d.BrightnessValid}) x := packU16(uint16(d.X)) y := packU16(uint16(d.Y)) return []byte{#, x[#], x[#], y[#], y[#], d.YBrightness, validBits} }`, "xyY", 6},
+	{`{ validBits := packB4([#]bool{d.WhiteValid, d.BlueValid, d.GreenValid, d.RedValid}) return []byte{#, d.Red, d.Green, d.Blue, d.White, uint8(#), validBits} }`, "rgbw", 3},
+}
+
+var unpackTemplates = []tmpl{
+	{`{ return unpackB1(data, (*bool)(d)) }`, "b1", 0},
+	{`{ return unpackU8(data, (*uint8)(d)) }`, "u8", 0},
+	{`{ var value uint8 if err := unpackU8(data, &value); err != nil { return err } *d = T(value) return nil }`, "u8", 0},
+	{`{ return unpackV8(data, (*int8)(d)) }`, "v8", 0},
+	{`{ return unpackU16(data, (*uint16)(d)) }`, "u16", 0},
+	{`{ return unpackV16(data, (*int16)(d)) }`, "v16", 0},
+	{`{ return unpackU32(data, (*uint32)(d)) }`, "u32", 0},
+	{`{ return unpackV32(data, (*int32)(d)) }`, "v32", 0},
+	{`{ var value float32 if err := unpackF32(data, &value); err != nil { return err } *d = T(value) return nil }`, "f32", 0},
+	{`{ var value float32 if err := unpackF16(data, &value); err != nil { return err } if value < # || value > # { return fmt.Errorf("S"%.2f\"S", value) } *d = T(value) return nil }`, "f16", 2},
+	{`{ var value uint8 if err := unpackU8(data, &value); err != nil { return err } *d = T(value) / # return nil }`, "scaled", 1},
+	{`{ var value uint8 if err := unpackU8(data, &value); err != nil { return err } *d = T(value) * # / # return nil }`, "angle", 2},
+	{`{ var value uint8 if err := unpackU8(data, &value); err != nil { return err } if value <= # { *d = T(value) return nil } else { *d = T(#) return nil } }`, "scene17", 2},
+	{`{ var value uint8 if err := unpackU8(data, &value); err != nil { return err } if value <= # || (value >= # && value <= #) { *d = T(value) return nil } else { *d = T(#) return nil } }`, "scene18", 4},
+	{`{ var value int16 if err := unpackV16(data, &value); err != nil { return err } *d = T(float32(value) / #) return nil }`, "v16scaled", 1},
+	{`{ if len(data) != # { return ErrInvalidLength } d.Weekday = uint8(data[#] >> #) d.Hour = uint8(data[#] & 0x1F) d.Minutes = uint8(data[#] & 0x3F) d.Seconds = uint8(data[#] & 0x3F) if !d.IsValid() { return fmt.Errorf("S") } return nil }`, "time", 6},
+	{`{ if len(data) != # { return ErrInvalidLength } d.Day = uint8(data[#] & 0x1F) d.Month = uint8(data[#] & 0xF) d.Year = uint16(data[#] & 0x7F) if d.Year > # { return fmt.Errorf("S") } if d.Year == # && d.Month == # && d.Day == # { d.Year = # d.Month = # d.Day = # } if d.Year >= # { d.Year += # } else { d.Year += # } if !d.IsValid() { return fmt.Errorf("S") } return nil }`, "date", 14},
+	{`{ if len(data) != # { return ErrInvalidLength } var buf = []rune{} for i := #; i < len(data) && data[i]&unicode.MaxASCII != 0x00; i++ { buf = append(buf, rune(data[i]&unicode.MaxASCII)) } *d = T(buf) return nil }`, "strAscii", 2},
+	{`{ if len(data) != # { return ErrInvalidLength } var buf = []rune{} for i := #; i < len(data) && data[i] != 0x00; i++ { buf = append(buf, rune(data[i])) } *d = T(buf) return nil }`, "strLatin1", 2},
+	{`{ if len(data) < # { return ErrInvalidLength } var buf = data[# : len(data)#] *d = T(buf) return nil }`, "varstr", 3},
+	{`{ if len(data) != # { return ErrInvalidLength } d.Red = uint8(data[#]) d.Green = uint8(data[#]) d.Blue = uint8(data[#]) return nil }`, "rgb", 4},
+}
+
+// the two long struct decoders are matched by prefix + literal list
+var unpackPrefixTemplates = []tmpl{
+	{`{ if len(data) != # { return ErrInvalidLength } var colorValid, brightnessValid bool err := unpackB2(data[#], &colorValid, &brightnessValid)`, "xyY", 9},
+	{`{ if len(data) != # { return ErrInvalidLength } var redValid, greenValid, blueValid, whiteValid bool err := unpackB4(data[#], &whiteValid, &blueValid, &greenValid, &redValid)`, "rgbw", 6},
+}
+
+// the literal lists the fixed-shape templates must carry (anything else is `unknown`)
+var fixedNums = map[string][2]string{
+	"scene17":   {"63 63", "63 63"},
+	"scene18":   {"63 128 191 63", "63 128 191 63"},
+	"time":      {"0 0 0 0 1 5 2 3", "4 1 5 1 2 3"},
+	"date":      {"0 0 0 0 1990 2089 1 2 2000 3 1900 3 2000 3", "4 1 2 3 99 0 0 0 90 1 1 90 1900 2000"},
+	"strAscii":  {"15 0 14 1 1", "15 1"},
+	"strLatin1": {"15 0 14 1 1", "15 1"},
+	"varstr":    {"1 2", "2 1 -1"},
+	"rgb":       {"0", "4 1 2 3"},
+	"xyY":       {"2 0 1 2 1 2", "7 6 0 1 2 0 3 4 5"},
+	"rgbw":      {"4 0 0", "7 6 1 2 3 4"},
+}
+
+func matchTmpl(ts []tmpl, text string, prefix bool) (string, bool) {
+	for _, t := range ts {
+		if (!prefix && t.text == text) || (prefix && strings.HasPrefix(text, t.text)) {
+			return t.kind, true
+		}
+	}
+	return "", false
+}
+
+// decLit renders a decimal literal as a Lean `Lit` (numerator, power-of-ten denominator).
+func decLit(s string) string {
+	neg := strings.HasPrefix(s, "-")
+	s = strings.TrimPrefix(s, "-")
+	den := 1
+	if i := strings.IndexByte(s, '.'); i >= 0 {
+		frac := s[i+1:]
+		s = s[:i] + frac
+		for range frac {
+			den *= 10
+		}
+	}
+	s = strings.TrimLeft(s, "0")
+	if s == "" {
+		s = "0"
+	}
+	if neg {
+		s = "-" + s
+	}
+	return fmt.Sprintf("⟨%s, %d⟩", s, den)
+}
+
+type dptType struct {
+	name       string
+	underlying string
+	pack       string
+	packNums   []string
+	unpack     string
+	unpackNums []string
+}
+
+func shapeOf(t *dptType) string {
+	pk, ok1 := matchTmpl(packTemplates, t.pack, false)
+	uk, ok2 := matchTmpl(unpackTemplates, t.unpack, false)
+	if !ok2 {
+		uk, ok2 = matchTmpl(unpackPrefixTemplates, t.unpack, true)
+	}
+	unknown := func(why string) string { return fmt.Sprintf("Shape.unknown %q", why) }
+	if !ok1 {
+		return unknown("Pack body not recognised")
+	}
+	if !ok2 {
+		return unknown("Unpack body not recognised")
+	}
+	if pk != uk {
+		return unknown("Pack is " + pk + " but Unpack is " + uk)
+	}
+	pn, un := strings.Join(t.packNums, " "), strings.Join(t.unpackNums, " ")
+	if fx, ok := fixedNums[pk]; ok {
+		if pn != fx[0] || un != fx[1] {
+			return unknown(pk + ": literals changed: pack [" + pn + "] unpack [" + un + "]")
+		}
+		return "Shape." + pk
+	}
+	switch pk {
+	case "b1", "u8", "v8", "u16", "v16", "u32", "v32", "f32":
+		wantU := map[string]string{"b1": "bool", "u8": "uint8", "v8": "int8", "u16": "uint16", "v16": "int16", "u32": "uint32", "v32": "int32", "f32": "float32"}[pk]
+		if t.underlying != wantU {
+			return unknown("underlying type " + t.underlying + " for shape " + pk)
+		}
+		return "Shape." + pk
+	case "f16":
+		// pack: d <= lo -> packF16(lo'), d >= hi -> packF16(hi'); unpack: value < ulo || value > uhi
+		if len(t.packNums) != 4 || len(t.unpackNums) != 2 {
+			return unknown("f16 literal count")
+		}
+		return fmt.Sprintf("Shape.f16 %s %s %s %s %s %s", decLit(t.packNums[0]), decLit(t.packNums[1]), decLit(t.packNums[2]), decLit(t.packNums[3]), decLit(t.unpackNums[0]), decLit(t.unpackNums[1]))
+	case "scaled":
+		if pn != "0 0 100 255 2.55 0.5" || un != "2.55" {
+			return unknown("scaled literals changed: pack [" + pn + "] unpack [" + un + "]")
+		}
+		return "Shape.scaled"
+	case "angle":
+		if pn != "0 0 360 255 255 360 0.5" || un != "360 255" {
+			return unknown("angle literals changed: pack [" + pn + "] unpack [" + un + "]")
+		}
+		return "Shape.angle"
+	case "v16scaled":
+		if len(t.packNums) != 1 || len(t.unpackNums) != 1 || t.packNums[0] != t.unpackNums[0] {
+			return unknown("v16scaled: pack and unpack scale differ")
+		}
+		return "Shape.v16scaled " + t.packNums[0]
+	}
+	return unknown("no rule for " + pk)
+}
+
+func underlyingOf(e ast.Expr) string {
+	switch e := e.(type) {
+	case *ast.Ident:
+		return e.Name
+	case *ast.StructType:
+		var fs []string
+		for _, f := range e.Fields.List {
+			for _, n := range f.Names {
+				fs = append(fs, n.Name+":"+typeString(f.Type))
+			}
+		}
+		return "struct{" + strings.Join(fs, ",") + "}"
+	}
+	return "?"
+}
+
+func codePoints(s string) string {
+	var parts []string
+	for _, r := range s {
+		parts = append(parts, fmt.Sprint(int(r)))
+	}
+	return "[" + strings.Join(parts, ", ") + "]"
+}
+
 func genDpt(dpt *pkg) string {
-	return "/- GENERATED (placeholder) -/\n"
+	types := map[string]*dptType{}
+	var order []string
+	for _, f := range dpt.files {
+		for _, d := range f.Decls {
+			switch d := d.(type) {
+			case *ast.GenDecl:
+				if d.Tok != token.TYPE {
+					continue
+				}
+				for _, s := range d.Specs {
+					ts := s.(*ast.TypeSpec)
+					if strings.HasPrefix(ts.Name.Name, "DPT_") {
+						types[ts.Name.Name] = &dptType{name: ts.Name.Name, underlying: underlyingOf(ts.Type)}
+						order = append(order, ts.Name.Name)
+					}
+				}
+			}
+		}
+	}
+	for _, f := range dpt.files {
+		for _, d := range f.Decls {
+			fd, ok := d.(*ast.FuncDecl)
+			if !ok || fd.Recv == nil || (fd.Name.Name != "Pack" && fd.Name.Name != "Unpack") {
+				continue
+			}
+			recv := strings.TrimPrefix(typeString(fd.Recv.List[0].Type), "*")
+			t := types[recv]
+			if t == nil {
+				continue
+			}
+			n, nums := normalize(dpt.bodyText(fd), recv)
+			if fd.Name.Name == "Pack" {
+				t.pack, t.packNums = n, nums
+			} else {
+				t.unpack, t.unpackNums = n, nums
+			}
+		}
+	}
+	sort.Strings(order)
+	// the registry map literal
+	var reg [][2]string
+	regOther := 0
+	for _, f := range dpt.files {
+		for _, d := range f.Decls {
+			gd, ok := d.(*ast.GenDecl)
+			if !ok || gd.Tok != token.VAR {
+				continue
+			}
+			for _, s := range gd.Specs {
+				vs := s.(*ast.ValueSpec)
+				if len(vs.Names) != 1 || vs.Names[0].Name != "dptTypes" || len(vs.Values) != 1 {
+					continue
+				}
+				cl, ok := vs.Values[0].(*ast.CompositeLit)
+				if !ok {
+					continue
+				}
+				for _, el := range cl.Elts {
+					kv, ok := el.(*ast.KeyValueExpr)
+					if !ok {
+						regOther++
+						continue
+					}
+					key, ok1 := kv.Key.(*ast.BasicLit)
+					call, ok2 := kv.Value.(*ast.CallExpr)
+					if !ok1 || !ok2 || len(call.Args) != 1 {
+						regOther++
+						continue
+					}
+					fn, ok3 := call.Fun.(*ast.Ident)
+					arg, ok4 := call.Args[0].(*ast.Ident)
+					if !ok3 || !ok4 || fn.Name != "new" {
+						regOther++
+						continue
+					}
+					k := strings.Trim(key.Value, `"`)
+					reg = append(reg, [2]string{k, arg.Name})
+				}
+			}
+		}
+	}
+	var sb strings.Builder
+	sb.WriteString("/- GENERATED by /verif/extract from knx/dpt — do not edit. -/\nimport Knx.DptShape\nnamespace Knx.Gen\nopen Knx.Dpt\n\n")
+	sb.WriteString("/-- the `dptTypes` map literal: (key, key as code points, type passed to `new`, that name as code points) -/\n")
+	sb.WriteString("def registry : List (String × List Nat × String × List Nat) := [\n")
+	for i, r := range reg {
+		sep := ","
+		if i == len(reg)-1 {
+			sep = ""
+		}
+		fmt.Fprintf(&sb, "  (%q, %s, %q, %s)%s\n", r[0], codePoints(r[0]), r[1], codePoints(r[1]), sep)
+	}
+	sb.WriteString("]\n\n")
+	fmt.Fprintf(&sb, "/-- map entries that are not of the form `\"key\": new(T)` -/\ndef registryOtherEntries : Nat := %d\n\n", regOther)
+	sb.WriteString("/-- every `type DPT_… ` declared in the package, as code points -/\ndef declared : List (String × List Nat) := [\n")
+	for i, n := range order {
+		sep := ","
+		if i == len(order)-1 {
+			sep = ""
+		}
+		fmt.Fprintf(&sb, "  (%q, %s)%s\n", n, codePoints(n), sep)
+	}
+	sb.WriteString("]\n\n")
+	sb.WriteString("/-- codec shape of every declared type, recognised from the bodies of its Pack and Unpack -/\ndef shapes : List (String × Shape) := [\n")
+	for i, n := range order {
+		sep := ","
+		if i == len(order)-1 {
+			sep = ""
+		}
+		fmt.Fprintf(&sb, "  (%q, %s)%s\n", n, shapeOf(types[n]), sep)
+	}
+	sb.WriteString("]\n\nend Knx.Gen\n")
+	return sb.String()
 }
